@@ -62,6 +62,9 @@ func c08DialRogue(ctx context.Context, addr net.Addr, strategy string, captured 
 		msg = []byte{}
 	}
 	st.Write(msg)
+	if strategy == "fin-without-reply" {
+		st.Close()
+	}
 	// everything the honest side sends: its own authentication message at most
 	buf := make([]byte, 4096)
 	total := 0
@@ -316,6 +319,8 @@ func TestVerifC08Extra(t *testing.T) {
 							}
 						} else if msg := c08Craft(strategy, a, authRoleReceive, seen, capS); msg != nil {
 							st.Write(msg)
+						} else if strategy == "fin-without-reply" {
+							st.Close()
 						}
 						// anything further from the honest sender is application data
 						buf := make([]byte, 64)
